@@ -18,7 +18,8 @@
  *   eclear <e> <order>                         order: string over b(lock) d(sp) c(omment) i(nfo), e.g. bdci
  *   brunit <e> <minb> <maxb> <avgb> <spl> <R> <fill>    poke the rate manager of a managed encoder (unit driver)
  *   ab <e> <W> <s0> ... <s14>                  one vorbis_bitrate_addblock on candidate packets of the given byte sizes
- *   dec <e> <mode>                             decode the packets of encoder e: mode p(acket API) | f(vorbisfile) | both
+ *   dec <e> p <hs> <keep>                      decode the packets of encoder e through the packet API (half rate hs; only every keep-th audio packet and the last keep their granule position)
+ *   dec <e> f <ppp>                            paginate (ppp packets per page, 0 = libogg default), open through vorbisfile, total + linear read count
  */
 #include "scn.h"
 #include <math.h>
@@ -79,7 +80,7 @@ static bitrate_manager_state *bms_of(enc_t *x){ return &((private_state*)x->vd.b
 static void log_brinit(enc_t *x,int unit){
   codec_setup_info *ci=x->vi.codec_setup; bitrate_manager_state *bm=bms_of(x); bitrate_manager_info *bi=&ci->bi;
   long fill=bi->reservoir_bits*bi->reservoir_bias;
-  ev_begin("BrInit"); ev_i("unit",unit); ev_i("K",PACKETBLOBS); ev_i("managed",bm->managed);
+  ev_begin("BrInit"); ev_i("x",(int)(x-E)); ev_i("unit",unit); ev_i("K",PACKETBLOBS); ev_i("managed",bm->managed);
   ev_i("minb",bm->min_bitsper); ev_i("maxb",bm->max_bitsper); ev_i("avgb",bm->avg_bitsper); ev_i("spl",bm->short_per_long);
   ev_i("R",bi->reservoir_bits); ev_i("fill",fill); ev_i("res",bm->minmax_reservoir);
   ev_i("rate",x->vi.rate); ev_i("bs0",ci->blocksizes[0]); ev_i("bs1",ci->blocksizes[1]);
@@ -100,6 +101,10 @@ static void pkt_flags(enc_t *x,ogg_packet *op,int *type,int *mode,int *W,int *lW
   if(*type==0 && *mode>=0 && *mode<ci->modes){ *W=ci->mode_param[*mode]->blockflag; if(*W){ *lW=oggpack_read(&o,1); *nW=oggpack_read(&o,1); } }
 }
 
+static void ev_est(enc_t *x){
+  vorbis_dsp_state *v=&x->vd; ev_i("cur",v->pcm_current); ev_i("cw",v->centerW); ev_i("slW",v->lW); ev_i("sW",v->W); ev_i("snW",v->nW);
+  ev_i("eof",v->eofflag); ev_i("sgp",v->granulepos); ev_i("sseq",v->sequence); ev_i("pre",v->preextrapolate);
+}
 static void drain(enc_t *x){
   int r;
   while((r=vorbis_analysis_blockout(&x->vd,&x->vb))==1){
@@ -121,7 +126,7 @@ static void drain(enc_t *x){
       pk_add(x,&op,W);
       ev_begin("Pkt"); ev_i("type",type); ev_i("mode",mode); ev_i("W",W); ev_i("lW",lW); ev_i("nW",nW);
       ev_i("gp",op.granulepos); ev_i("eos",op.e_o_s); ev_i("no",op.packetno); ev_i("bytes",op.bytes); ev_i("managed",bm->managed);
-      ev_i("k",x->npk-3-1); ev_end();
+      ev_i("k",x->npk-3-1); ev_i("x",(int)(x-E)); ev_est(x); ev_end();
       if(op.e_o_s) x->eos_seen=1;
     }
   }
@@ -198,13 +203,13 @@ static void cmd(char **tok,int nt){
     do{ long m=n-done; if(m>chunk) m=chunk;
       float **b=vorbis_analysis_buffer(&x->vd,(int)m); if(m>0) gen(x,b,m,sig);
       int ret=vorbis_analysis_wrote(&x->vd,(int)m);
-      ev_begin("Wrote"); ev_i("x",e); ev_i("n",m); ev_i("ret",ret); ev_i("sig",sig); ev_end();
+      ev_begin("Wrote"); ev_i("x",e); ev_i("n",m); ev_i("ret",ret); ev_i("sig",sig); ev_est(x); ev_end();
       if(m>0){ x->submitted+=m; done+=m; }
       drain(x);
       if(m==0) break;
     }while(done<n);
   }
-  else if(!strcmp(c,"eeof")){ int ret=vorbis_analysis_wrote(&x->vd,0); ev_begin("Wrote"); ev_i("x",e); ev_i("n",0); ev_i("ret",ret); ev_i("sig",-1); ev_end(); drain(x); ev_begin("EncDone"); ev_i("x",e); ev_i("N",x->submitted); ev_i("eos",x->eos_seen); ev_i("npk",x->npk); ev_end(); }
+  else if(!strcmp(c,"eeof")){ int ret=vorbis_analysis_wrote(&x->vd,0); ev_begin("Wrote"); ev_i("x",e); ev_i("n",0); ev_i("ret",ret); ev_i("sig",-1); ev_est(x); ev_end(); drain(x); ev_begin("EncDone"); ev_i("x",e); ev_i("N",x->submitted); ev_i("eos",x->eos_seen); ev_i("npk",x->npk); ev_end(); }
   else if(!strcmp(c,"eclear")&&nt>=3){
     for(const char *o=tok[2];*o;o++){
       if(*o=='b'||*o=='d'||*o=='i') x->ready=0;
@@ -236,6 +241,61 @@ static void cmd(char **tok,int nt){
   }
 }
 
+/* ---------- decoding what an encoder produced ---------- */
+typedef struct { unsigned char *b; long len,pos; } mem_t;
+static size_t m_read(void *p,size_t sz,size_t nm,void *ds){ mem_t *m=ds; long w=(long)(sz*nm), a=m->len-m->pos; if(w>a)w=a; if(w>0)memcpy(p,m->b+m->pos,w); m->pos+=w; return (size_t)w; }
+static int m_seek(void *ds,ogg_int64_t off,int wh){ mem_t *m=ds; long np=wh==SEEK_SET?(long)off:wh==SEEK_CUR?m->pos+(long)off:m->len+(long)off; if(np<0)return -1; m->pos=np; return 0; }
+static long m_tell(void *ds){ return ((mem_t*)ds)->pos; }
+
+static void dec_packets(enc_t *x,int e,int hs,int keep){
+  vorbis_info vi; vorbis_comment vc; vorbis_dsp_state vd; vorbis_block vb; int inited=0;
+  vorbis_info_init(&vi); vorbis_comment_init(&vc);
+  long total=0;
+  for(int i=0;i<x->npk;i++){
+    pkt_t *p=&x->pk[i]; ogg_packet op; memset(&op,0,sizeof op); op.packet=p->data; op.bytes=p->bytes; op.b_o_s=(i==0); op.e_o_s=p->eos; op.packetno=p->no;
+    int k=i-3; int kept=(i<3)||p->eos||keep<=1||((k+1)%keep==0); op.granulepos=kept?p->gp:-1;
+    if(i<3){ int r=vorbis_synthesis_headerin(&vi,&vc,&op); ev_begin("DecHdr"); ev_i("x",e); ev_i("i",i); ev_i("ret",r); ev_i("dch",vi.channels); ev_i("drate",vi.rate);
+      ev_i("dbru",vi.bitrate_upper); ev_i("dbrn",vi.bitrate_nominal); ev_i("dbrl",vi.bitrate_lower);
+      if(i==2&&r==0){ ev_i("dbs0",vorbis_info_blocksize(&vi,0)); ev_i("dbs1",vorbis_info_blocksize(&vi,1)); } ev_end();
+      if(r) break;
+      if(i==2){ int rh=0; if(hs) rh=vorbis_synthesis_halfrate(&vi,1); int ri=vorbis_synthesis_init(&vd,&vi); if(ri==0){ vorbis_block_init(&vd,&vb); inited=1; }
+        ev_begin("DecInit"); ev_i("x",e); ev_i("ret",ri); ev_i("hs",hs); ev_i("rh",rh); ev_i("hsp",vorbis_synthesis_halfrate_p(&vi)); ev_end(); if(ri) break; }
+      continue; }
+    int rs=vorbis_synthesis(&vb,&op); long used=oggpack_bits(&vb.opb); int rb=-9999; if(rs==0) rb=vorbis_synthesis_blockin(&vd,&vb);
+    int n=vorbis_synthesis_pcmout(&vd,NULL);
+    ev_begin("DecPkt"); ev_i("x",e); ev_i("k",k); ev_i("W",p->W); ev_i("no",op.packetno); ev_i("gp",op.granulepos); ev_i("eos",op.e_o_s); ev_i("bytes",op.bytes);
+    ev_i("rs",rs); ev_i("used",used); ev_i("rb",rb); ev_i("n",n); ev_i("managed",x->managed);
+    ev_i("dlW",vd.lW); ev_i("dW",vd.W); ev_i("dcw",vd.centerW); ev_i("dcur",vd.pcm_current); ev_i("dret",vd.pcm_returned); ev_i("dgp",vd.granulepos); ev_i("dseq",vd.sequence);
+    ev_i("dsc",((private_state*)vd.backend_state)->sample_count); ev_i("deof",vd.eofflag); ev_end();
+    if(n>0){ vorbis_synthesis_read(&vd,n); total+=n; }
+  }
+  ev_begin("DecDone"); ev_i("x",e); ev_i("total",total); ev_i("hs",hs); ev_i("N",x->submitted); ev_end();
+  if(inited){ vorbis_block_clear(&vb); vorbis_dsp_clear(&vd); }
+  vorbis_comment_clear(&vc); vorbis_info_clear(&vi);
+}
+static void dec_file(enc_t *x,int e,int ppp){
+  /* paginate with libogg, open through vorbisfile, report total and count what a linear read delivers */
+  ogg_stream_state os; ogg_stream_init(&os,4711+e); ogg_page og; mem_t m={0,0,0}; long cap=0; int onpage=0;
+  #define ADDPG do{ long l=og.header_len+og.body_len; if(m.len+l>cap){ cap=(m.len+l)*2+4096; m.b=realloc(m.b,cap);} memcpy(m.b+m.len,og.header,og.header_len); memcpy(m.b+m.len+og.header_len,og.body,og.body_len); m.len+=l; }while(0)
+  for(int i=0;i<x->npk;i++){ pkt_t *p=&x->pk[i]; ogg_packet op; memset(&op,0,sizeof op); op.packet=p->data; op.bytes=p->bytes; op.b_o_s=(i==0); op.e_o_s=p->eos; op.packetno=p->no; op.granulepos=p->gp;
+    ogg_stream_packetin(&os,&op);
+    if(i==0||i==2){ while(ogg_stream_flush(&os,&og)) ADDPG; }
+    else if(i>2){ if(ppp>0){ onpage++; if(onpage>=ppp||p->eos){ while(ogg_stream_flush(&os,&og)) ADDPG; onpage=0; } } else { while(ogg_stream_pageout(&os,&og)) ADDPG; } } }
+  while(ogg_stream_flush(&os,&og)) ADDPG;
+  ogg_stream_clear(&os);
+  OggVorbis_File vf; ov_callbacks cb={m_read,m_seek,NULL,m_tell};
+  int r=ov_open_callbacks(&m,&vf,NULL,0,cb); long long tot=-1,cnt=0; int holes=0; long last=0;
+  if(r==0){ tot=ov_pcm_total(&vf,-1); float **pcm; int bs; while(1){ long n=ov_read_float(&vf,&pcm,4096,&bs); if(n==OV_HOLE){ holes++; continue; } if(n<=0){ last=n; break; } cnt+=n; } }
+  ev_begin("VfTotal"); ev_i("x",e); ev_i("ret",r); ev_i("total",tot); ev_i("read",cnt); ev_i("holes",holes); ev_i("last",last); ev_i("N",x->submitted); ev_i("ppp",ppp); ev_i("bytes",m.len);
+  if(r==0){ ev_i("vch",ov_info(&vf,-1)->channels); ev_i("vrate",ov_info(&vf,-1)->rate); ov_clear(&vf); }
+  ev_end(); free(m.b);
+}
+static void cmd2(char **tok,int nt){
+  if(!strcmp(tok[0],"dec")&&nt>=3){ int e=atoi(tok[1]); if(e<0||e>=NE) return; enc_t *x=&E[e]; if(x->npk<3){ ev_begin("Skip"); ev_i("x",e); ev_s("cmd","dec"); ev_end(); return; }
+    const char *m=tok[2]; int a=nt>=4?atoi(tok[3]):0, b=nt>=5?atoi(tok[4]):1;
+    if(m[0]=='p') dec_packets(x,e,a,b); else if(m[0]=='f') dec_file(x,e,a); return; }
+  cmd(tok,nt);
+}
 static void scn_begin(const char *name){ (void)name; memset(E,0,sizeof E); }
 static void scn_end(const char *name){ (void)name; int left=0; for(int e=0;e<NE;e++){ enc_t *x=&E[e]; if(x->s_vi==1||x->s_vd==1||x->s_vb==1||x->s_vc==1) left++; } ev_i("objleft",left); }
-int main(int argc,char **argv){ scn_ops ops={NULL,scn_begin,cmd,scn_end}; return scn_main(argc,argv,&ops); }
+int main(int argc,char **argv){ scn_ops ops={NULL,scn_begin,cmd2,scn_end}; return scn_main(argc,argv,&ops); }
